@@ -3,6 +3,7 @@ package h
 // C05 — no script can take the host down through the context-aware run path.
 
 import (
+	"context"
 	"time"
 
 	"github.com/d5/tengo/v2"
@@ -23,6 +24,14 @@ func (c *hctx) Err() error                        { return c.err }
 func (c *hctx) Value(key interface{}) interface{} { return nil }
 
 func liveCtx() *hctx { return &hctx{done: make(chan struct{})} }
+
+// bgctx behaves like context.Background(): Done() is a nil channel.
+type bgctx struct{}
+
+func (bgctx) Deadline() (time.Time, bool)       { return time.Time{}, false }
+func (bgctx) Done() <-chan struct{}             { return nil }
+func (bgctx) Err() error                        { return nil }
+func (bgctx) Value(key interface{}) interface{} { return nil }
 
 // opBudget is the unwinding bound for one operation on operands of the
 // universe U(1,w): every loop inside one builtin/operator call must finish
@@ -250,6 +259,10 @@ var hostileRC = []Prog{
 	{"cyclic-eq", `x := [0]; x[0] = x; out := x == x`, false},
 	{"cyclic-string", `x := {}; x.self = x; out := string(x)`, false},
 	{"cyclic-copy", `x := [0]; x[0] = x; out := copy(x)`, false},
+	{"cyclic-freeze-array", `x := [0]; x[0] = x; out := freeze(x); o2 := len(out)`, false},
+	{"cyclic-freeze-map", `m := {}; m.self = m; out := freeze(m); o2 := len(out)`, false},
+	{"cyclic-freeze-mixed", `p := {}; q := {peer: p, l: [p]}; p.peer = q; out := freeze([p, q]); o2 := len(out)`, false},
+	{"panic-in-builtin-arg", `out := [1, 2][a / b]`, false},
 }
 
 // C05_RunContext: hostile programs with symbolic inputs through
@@ -273,7 +286,11 @@ func C05_RunContext() {
 	c, err := s.Compile()
 	vf.Assert(err == nil, "hostile program compiles: "+p.Name)
 	var rerr error
-	res := vf.Guard(func() { rerr = c.RunContext(liveCtx()) }, 6000000)
+	var ctx context.Context = liveCtx()
+	if vf.Choice("ctxkind", 2) == 1 {
+		ctx = bgctx{} // a context that can never be cancelled (Done() == nil)
+	}
+	res := vf.Guard(func() { rerr = c.RunContext(ctx) }, 6000000)
 	vf.Assert(res == 0, "RunContext returns (no panic reaches the host, no hang, no fatal error): "+p.Name+": "+vf.LastGuard())
 	vf.Assert(vf.Goroutines() == 0, "the VM goroutine has terminated when RunContext returns: "+p.Name)
 	_ = rerr
